@@ -490,11 +490,12 @@ pub fn naming_worlds(thorough: bool) -> Vec<WorldSpec> {
     let roots: [Option<&str>; 2] = [None, Some("r")];
     let kinds = [Kind::B, Kind::A];
     for root in roots {
-        let projects = vec![root.map(|s| s.to_string()), Some("a".to_string()), Some("b".to_string())];
+        // (the third project's name contains a hyphen and ends in the second one's name)
+        let projects = vec![root.map(|s| s.to_string()), Some("a".to_string()), Some("b-a".to_string())];
         // node set: t in every project, u in root and a
         let base: Vec<(usize, &str)> = vec![(0, "t"), (1, "t"), (2, "t"), (0, "u"), (1, "u")];
         // each node gets one reference chosen from a menu of spellings (or none)
-        let menu: Vec<Option<(&str, bool)>> = vec![None, Some(("t", false)), Some(("u", false)), Some(("a::t", false)), Some(("b::t", false)), Some(("r::t", false)), Some(("a::u", true)), Some(("t", true)), Some(("b::u", false))];
+        let menu: Vec<Option<(&str, bool)>> = vec![None, Some(("t", false)), Some(("u", false)), Some(("a::t", false)), Some(("b-a::t", false)), Some(("r::t", false)), Some(("a::u", true)), Some(("t", true)), Some(("b-a::u", false)), Some(("b-a::t", true))];
         let m = menu.len();
         let limit = if thorough { 5 } else { 3 };
         // choose references for the first `limit` nodes, none for the others
@@ -637,7 +638,7 @@ pub fn check_c19(rep: &mut Report) {
     rep.set("traces_validated_against_impl", json!(cases));
     rep.set("worlds", json!(worlds.len()));
     rep.set("exhaustive", json!(true));
-    rep.set("bounds", json!({"projects": "root (unnamed / named r) + a + b", "targets": "t in every project, u in root and a", "reference_menu": "none, t, u, a::t, b::t, r::t, a::u.output, t.output, b::u on the first 3 (5 thorough) nodes"}));
+    rep.set("bounds", json!({"projects": "root (unnamed / named r) + a + b-a", "targets": "t in every project, u in root and a", "reference_menu": "none, t, u, a::t, b-a::t, r::t, a::u.output, t.output, b-a::u, b-a::t.output on the first 3 (5 thorough) nodes"}));
 }
 
 /// C13, resolution half: every world with at least one `.output` reference (1-2 nodes exhaustively, the
